@@ -544,8 +544,11 @@ Varable failures: {var_failed}
         # If subsetting replaces ('ROW', 'COL') ... for example with ('PERIM',)
         # remove the dimensions
         if deleterowcol:
-            del outf.dimensions['COL']
-            del outf.dimensions['ROW']
+            for dk in ('COL', 'ROW'):
+                # a variable that had only one of ROW/COL still uses it
+                if not any(dk in v.dimensions
+                           for v in outf.variables.values()):
+                    del outf.dimensions[dk]
         else:
             # Update origins
             if 'COL' in kwds and 'COL' in outf.dimensions:
